@@ -55,6 +55,45 @@ def _always_leaves(stmts):
     return False
 
 
+def _negate(e):
+    """canonical negation of a test expression"""
+    if isinstance(e, ast.UnaryOp) and isinstance(e.op, ast.Not):
+        return e.operand
+    if isinstance(e, ast.Compare) and len(e.ops) == 1:
+        op, l, r = e.ops[0], e.left, e.comparators[0]
+        flip = {ast.Eq: ast.NotEq, ast.NotEq: ast.Eq, ast.In: ast.NotIn, ast.NotIn: ast.In, ast.Is: ast.IsNot, ast.IsNot: ast.Is}
+        if type(op) in flip:
+            return ast.copy_location(ast.Compare(left=l, ops=[flip[type(op)]()], comparators=[r]), e)
+        if isinstance(op, ast.Lt):
+            return ast.copy_location(ast.Compare(left=r, ops=[ast.LtE()], comparators=[l]), e)
+        if isinstance(op, ast.LtE):
+            return ast.copy_location(ast.Compare(left=r, ops=[ast.Lt()], comparators=[l]), e)
+        if isinstance(op, ast.Gt):
+            return ast.copy_location(ast.Compare(left=l, ops=[ast.LtE()], comparators=[r]), e)
+        if isinstance(op, ast.GtE):
+            return ast.copy_location(ast.Compare(left=l, ops=[ast.Lt()], comparators=[r]), e)
+    return ast.copy_location(ast.UnaryOp(op=ast.Not(), operand=e), e)
+
+
+def _has_break(stmts):
+    """a break belonging to this loop level"""
+    for s in stmts:
+        if isinstance(s, ast.Break):
+            return True
+        if isinstance(s, (ast.For, ast.While, ast.AsyncFor, ast.FunctionDef, ast.AsyncFunctionDef, ast.ClassDef)):
+            if isinstance(s, (ast.For, ast.While, ast.AsyncFor)) and _has_break(s.orelse):
+                return True
+            continue
+        for f in ('body', 'orelse', 'finalbody'):
+            if _has_break(getattr(s, f, []) or []):
+                return True
+        if isinstance(s, ast.Try):
+            for h in s.handlers:
+                if _has_break(h.body):
+                    return True
+    return False
+
+
 class _Canon(ast.NodeTransformer):
     """Canonical forms, so that rules see one shape for equivalent code:
     x = x <op> e        -> x <op>= e
@@ -62,7 +101,8 @@ class _Canon(ast.NodeTransformer):
     pass                -> removed from non-empty blocks
     L.acquire(); try: B finally: L.release()   ->   with L: B   (L a lock/condition)
     dict(a=x, **m) -> {'a': x, **m};   f(**{'a': x, **m}) -> f(a=x, **m)
-    if c: A(always leaves the block) else: B   ->   if c: A ; B"""
+    if c: A(always leaves the block) else: B   ->   if c: A ; B
+    while True: if X: break ; REST   ->   while not X: REST ;   while c: B else: E  ->  while c: B ; E  (B has no break)"""
 
     def visit_Assign(self, node):
         self.generic_visit(node)
@@ -149,6 +189,29 @@ class _Canon(ast.NodeTransformer):
                 out.append(ast.copy_location(w, s))
                 i += 2
                 continue
+            # while True: if X: break ; REST   ->   while not X: REST      (leading exits become the loop condition)
+            if isinstance(s, ast.While) and isinstance(s.test, ast.Constant) and s.test.value is True and not s.orelse:
+                conds = []
+                body = list(s.body)
+                while body and isinstance(body[0], ast.If) and not body[0].orelse and len(body[0].body) == 1 and isinstance(body[0].body[0], ast.Break) and len(body) > 1:
+                    conds.append(_negate(body[0].test))
+                    body = body[1:]
+                if conds:
+                    s.test = conds[0] if len(conds) == 1 else ast.copy_location(ast.BoolOp(op=ast.And(), values=conds), s)
+                    s.body = body
+            # while c: B  else: E   ->   while c: B ; E        when B cannot break out of this loop
+            if isinstance(s, (ast.While, ast.For)) and s.orelse and not _has_break(s.body) \
+                    and not (isinstance(s, ast.While) and isinstance(s.test, ast.Constant) and s.test.value):
+                rest = s.orelse
+                s.orelse = []
+                stmts = stmts[:i + 1] + rest + stmts[i + 1:]
+                nxt = stmts[i + 1] if i + 1 < len(stmts) else None
+            # try: A except..: (always leaves) else: B   ->   try: A except..: .. ; B     (no finally)
+            if isinstance(s, ast.Try) and s.orelse and not s.finalbody and s.handlers and all(_always_leaves(h.body) for h in s.handlers):
+                rest = s.orelse
+                s.orelse = []
+                stmts = stmts[:i + 1] + rest + stmts[i + 1:]
+                nxt = stmts[i + 1] if i + 1 < len(stmts) else None
             # if c: A (always leaves the block) else: B   ->   if c: A ; B     (guard-clause form)
             if isinstance(s, ast.If) and s.orelse and _always_leaves(s.body):
                 rest = s.orelse
